@@ -131,7 +131,7 @@ def mc_cfg(fam, spec='Spec', invariants=(), props=(), view=True, extra_lines=())
               ' Anchors = ' + iset(fam['anchors']), ' Horizon = %d' % fam['horizon'], ' WeekEnds = ' + iset(fam['weekends']),
               ' TickKinds = ' + sset(fam['tick']), ' SetModes = ' + sset(fam['setmodes']), ' Xs = ' + iset(fam['xs']),
               ' MaxInc = %d' % fam['inc'], ' MaxRun = %d' % fam['run'], ' MaxDown = %d' % fam['down'],
-              ' MaxSet = %d' % fam['set'], ' MaxWork = %d' % fam['work']]
+              ' MaxSet = %d' % fam['set'], ' MaxWork = %d' % fam['work'], ' Phased = %s' % ('TRUE' if fam.get('phased') else 'FALSE')]
     return '\n'.join(lines) + '\n'
 
 
@@ -155,6 +155,8 @@ WITNESSES = {
     'W_OffThenOn': 'nInc >= 2 /\\ SumV(hist) < nInc /\\ store # {}',
     # mode local: reports are built, nothing is sent
     'W_LocalOnly': '\\E g \\in built : EffMode(g.mf) = "local" /\\ ~\\E o \\in store : o.wk = g.wk',
+    # the uploader starts at the very instant a file ends: that file is not finished yet
+    'W_EndsAtStart': 'last.op = "run" /\\ tod = 0 /\\ EffMode(mf) # "off" /\\ \\E c \\in files : c.e = day',
     # a stored week is merged and charted over a range of several days
     'W_ChartRange': '\\E c \\in charts : c.s < c.e /\\ c.num >= 1 /\\ \\E t \\in c.val : t.c \\notin {"Version", "GOOS", "GOARCH", "GoVersion"}',
     # a chart request over a range with a day that was never merged
@@ -165,6 +167,10 @@ WITNESSES_2W = {
     'W_SameIdTwoWeeks': '\\E c \\in charts : c.num >= 2 /\\ \\E t \\in c.val : t.v < c.num /\\ t.c = "GOOS"',
     # the server was unreachable: the report waits and is sent by a later run
     'W_SentLater': 'nDown >= 1 /\\ store # {}',
+    # a report left waiting is NOT sent by a later run once the opt-in date has moved past its week
+    'W_ReadyHeldBack': 'ready # {} /\\ last.op = "run" /\\ last.up /\\ ExactlyOn(mf)',
+    # ... nor by a run in mode local
+    'W_ReadyKeptInLocal': 'ready # {} /\\ last.op = "run" /\\ last.up /\\ EffMode(mf) = "local"',
     # X = 0 is refused by the server: no marker, the report is dropped
     'W_RefusedX0': '\\E l \\in local : l.x = 0 /\\ ExactlyOn(mf) /\\ nRun >= 1 /\\ ready = {} /\\ \\E g \\in built : g.wk = l.wk /\\ ExactlyOn(g.mf)',
     # a week older than 21 days is reported locally only
@@ -205,15 +211,18 @@ def families(ctx, anchor):
     fams = []
     # client side: consent, calendar, approval; no worker steps
     fams.append(dict(base, name='client', builds=['A1', 'U1'], names=['ok', 'ch:a', 'ch:z'], tick=['half', 'wkend'],
-                     inc=ctx.pick(2, 3), run=2, set=ctx.pick(1, 2), work=0, witnesses=WITNESSES))
+                     inc=ctx.pick(2, 3), run=2, set=ctx.pick(1, 2), work=0,
+                     witnesses={k: v for k, v in WITNESSES.items() if k not in ('W_ChartRange', 'W_ChartMissingDay')}))
     # worker side: two weeks, same and different X, merge and chart
     fams.append(dict(base, name='worker', builds=['A1', 'A2'], names=['ok', 'ch:a'], tick=['wkend'], initmodes=[on_past], setmodes=[],
-                     inc=2, run=ctx.pick(1, 2), set=0, work=3, witnesses=dict(WITNESSES, **{k: v for k, v in WITNESSES_2W.items() if k == 'W_SameIdTwoWeeks'})))
+                     inc=2, run=ctx.pick(1, 2), set=0, work=ctx.pick(3, 4), phased=True,
+                     witnesses={k: v for k, v in dict(WITNESSES, **WITNESSES_2W).items() if k in ('W_ChartRange', 'W_ChartMissingDay', 'W_SameIdTwoWeeks', 'W_IncAfterRotation', 'W_RateBelowX')}))
     # server refusal, unreachable server, old weeks
-    fams.append(dict(base, name='server', builds=['A1'], names=['ok', 'no'], tick=['wkend', 'old'], horizon=40, initmodes=[on_past], setmodes=['local'],
-                     xs=[0, 2, 7], down=1, inc=2, run=ctx.pick(2, 3), set=ctx.pick(0, 1), work=0, witnesses=WITNESSES_2W))
+    fams.append(dict(base, name='server', builds=['A1'], names=['ok', 'no'], tick=['wkend', 'old'], horizon=40, initmodes=[on_past], setmodes=['local', 'on'],
+                     xs=[0, 2, 7], down=1, inc=2, run=ctx.pick(2, 3), set=1, work=0,
+                     witnesses={k: v for k, v in WITNESSES_2W.items() if k != 'W_SameIdTwoWeeks'}))
     if ctx.thorough():
-        fams.append(dict(base, name='client-3builds', builds=['A1', 'A3', 'U2'], names=['ok', 'ch:b', 'no', 'st'], tick=['half', 'wkend'],
+        fams.append(dict(base, name='client-3builds', builds=['A1', 'A3', 'U2'], names=['ok', 'ch:b', 'st'], tick=['half', 'wkend'],
                          inc=3, run=2, set=1, work=0, witnesses={}))
         fams.append(dict(base, name='full-small', builds=['A1', 'U1'], names=['ok', 'ch:a'], tick=['wkend'], down=1,
                          inc=2, run=2, set=1, work=2, witnesses={}))
@@ -223,7 +232,7 @@ def families(ctx, anchor):
 def sim_family(ctx, anchors):
     on_past = 'Text("on", %d, FALSE)' % (anchors[0] - 400)
     return dict(name='simulate', builds=['A1', 'A2', 'A3', 'U1', 'U2', 'U3'], names=NAMES, anchors=anchors, horizon=45,
-                weekends=list(range(7)), tick=['half', 'day', 'wkend', 'week', 'old'], initmodes=['Absent', on_past, 'Text("local", %d, FALSE)' % anchors[0]],
+                weekends=list(range(7)), tick=['half', 'day', 'wkend', 'week', 'old'], initmodes=['Absent', on_past, 'Text("on", %d, FALSE)' % (anchors[0] - 30), 'Text("on", %d, FALSE)' % (anchors[0] - 3), 'Text("local", %d, FALSE)' % anchors[0]],
                 setmodes=['on', 'off', 'local'], xs=[0, 2, 5, 7], inc=8, run=5, down=2, set=3, work=6)
 
 
@@ -506,12 +515,18 @@ def run(ctx):
         extra = '\n'.join(oneshot + ['O_%s == OneShot(%d, %s)' % (w, i + 1, f['witnesses'][w]) for i, w in enumerate(ws)])
         jobs.append((('MCTelemetry',), dict(files={'MCTelemetry.tla': mc_module(u, f, extra=extra)},
                                             cfg_text=mc_cfg(f, invariants=INVARIANTS + (['TablesAgree'] if f['name'] == 'client' else []) + ['O_' + w for w in ws], props=PROPS),
-                                            label='Telemetry[%s] exhaustive' % f['name'], timeout=3000, workers=ctx.pick(4, 6), extra=['-continue'])))
+                                            label='Telemetry[%s] exhaustive' % f['name'], timeout=3000, workers=ctx.pick(4, 6), extra=['-continue'],
+                                            coverage=f['name'] in ctx.pick(('worker',), ('worker', 'server')))))
         meta.append(('bfs', f))
-    nwalk = ctx.pick(110, 1400)
-    jobs.append((('MCTelemetry',), dict(files={'MCTelemetry.tla': mc_module(u, simfam)}, cfg_text=mc_cfg(simfam, view=False),
-                                        simulate={'num': nwalk, 'file': True}, depth=ctx.pick(26, 34), label='Telemetry[simulate]', count=False, workers=1)))
-    meta.append(('sim', simfam))
+    nwalk = ctx.pick(300, 1500)
+    # half of the walks over everything, half with consent given long ago and a usable X (they get far into the pipeline)
+    simon = dict(simfam, name='simulate-on', initmodes=[m for m in simfam['initmodes'] if '"on"' in m], setmodes=['on'], set=1, xs=[2, 5], down=1)
+    for i in range(ctx.pick(2, 4)):
+        sf = simfam if i % 2 == 0 else simon
+        jobs.append((('MCTelemetry',), dict(files={'MCTelemetry.tla': mc_module(u, sf)}, cfg_text=mc_cfg(sf, view=False, extra_lines=['ACTION_CONSTRAINT SimFocus']),
+                                            simulate={'num': nwalk, 'file': True}, depth=ctx.pick(26, 34), seed=ctx.seed * 10 + i,
+                                            label='Telemetry[%s %d]' % (sf['name'], i), count=False, workers=1)))
+        meta.append(('sim', sf))
     src = open(os.path.join(os.path.dirname(os.path.dirname(os.path.abspath(__file__))), 'spec', 'Telemetry.tla')).read()
     mutfam = dict(name='mutant', builds=['A1'], names=['ok', 'ch:a'], anchors=[anchor], horizon=16, weekends=[(anchor + 5) % 7], tick=['wkend'],
                   initmodes=['Absent', 'Text("on", %d, FALSE)' % (anchor - 400)], setmodes=['on', 'off'], xs=[0, 5], inc=2, run=1, down=0, set=1, work=2)
@@ -543,6 +558,9 @@ def run(ctx):
     for (kind, m), r in zip(meta, results):
         if kind == 'bfs':
             model[m['name']] = {'distinct': r.distinct, 'generated': r.generated, 'depth': r.depth}
+            if m['name'] in ctx.pick(('worker',), ('worker', 'server')):
+                # -coverage: actions of Next that were never taken in this family (Inc/Tick/SetMode/RunUploader/Merge/Chart are expected to be)
+                model[m['name']]['actions_never_taken'] = sorted(set(r.coverage_zero))
             if r.error in ('action', 'temporal', 'deadlock'):
                 raise Infra('Telemetry[%s]: the specification itself violates %s %s\n%s' % (m['name'], r.error, r.error_name, r.out[-3000:]))
             found = set()
@@ -568,6 +586,32 @@ def run(ctx):
             else:
                 raise Infra('spec mutant %r should violate %s but TLC says %s %s\n%s' % (what, prop, r.error, r.error_name, r.out[-1500:]))
     ctx.cov['model'] = model
+    sit = {'stored_report': 0, 'two_stored_weeks': 0, 'local_only_week': 0, 'report_waiting': 0, 'merged_lines': 0, 'chart_with_counter_value': 0,
+           'chart_not_found': 0, 'inc_in_mode_off': 0, 'unapproved_build_in_local_report': 0}
+    for b in behs:
+        fl = set()
+        for k, w in enumerate(b['want']):
+            if w['store']:
+                fl.add('stored_report')
+            if len({o['wk'] for o in w['store']}) >= 2:
+                fl.add('two_stored_weeks')
+            if any(not [o for o in w['store'] if o['wk'] == l['wk']] for l in w['local']):
+                fl.add('local_only_week')
+            if w['ready']:
+                fl.add('report_waiting')
+            if any(g['n'] for g in w['merged']):
+                fl.add('merged_lines')
+            if any(t['c'] not in ('Version', 'GOOS', 'GOARCH', 'GoVersion') for c in w['charts'] for t in c['val']):
+                fl.add('chart_with_counter_value')
+            if w['resp'] == 404:
+                fl.add('chart_not_found')
+            if b['steps'][k]['op'] == 'inc' and w['mode'].get('w') == 'off':
+                fl.add('inc_in_mode_off')
+            if any(p.startswith('U') for l in w['local'] for p in l['progs']):
+                fl.add('unapproved_build_in_local_report')
+        for f in fl:
+            sit[f] += 1
+    ctx.cov['behaviours_reaching'] = sit
     ctx.cov['spec_mutants_biting'] = mut_ok
     ctx.cov['behaviours'] = len(behs)
     ctx.cov['witness_behaviours'] = len([b for b in behs if b['src'] != 'simulate'])
@@ -625,7 +669,7 @@ def run(ctx):
             bad = diff_components(b['want'][k], obs, comps)
             if ab.problems[nprob:]:
                 bad.append('wellformed')
-            if bad:
+            if bad and good:
                 good = False
                 detail = {'behaviour': b['src'], 'wend': b['wend'], 'initial_mode': b['mode'], 'step': k, 'ops': b['steps'][:k + 1], 'clock': b['clock'][k],
                           'problems': ab.problems[nprob:], 'differs': {c: {'model': b['want'][k][c], 'real': obs[c]} for c in bad if c != 'wellformed'}}
